@@ -41,6 +41,7 @@ VecSync(ts, b) == "Sync" \in ts /\ BSync(b)
 SharedHandles    == {"ElementRef", "IterRef", "LazyCloneOfElementRef"}
 ExclusiveHandles == {"ElementMut", "IterMut", "Element", "Pop", "Remove", "SwapRemove", "Drain", "Splice"}
 TypedViews       == {"AnyVecRef", "AnyVecMut"}
+TypedIters       == {"TypedDrain", "TypedSplice"}        \* the (opaque) iterators AnyVecMut::drain / splice return: exclusive, typed
 ErasedTypes      == SharedHandles \cup ExclusiveHandles
 
 (* &V: Send <=> V: Sync ; &mut V: Send <=> V: Send ; &V, &mut V: Sync <=> V: Sync *)
@@ -76,6 +77,10 @@ Cases ==
   \cup { [kind |-> "auto", ty |-> ty, trait |-> t, ts |-> TsSeq(ts), backend |-> b.name, elem |-> e.name, dir |-> "only_if",
         expect |-> IF t = "Send" THEN ViewMaySend(ty, ts, b, e) ELSE ViewMaySync(ty, ts, b, e)]
         : ty \in TypedViews, ts \in TraitSets, b \in {x \in Backends : x.name \in {"Heap", "Stack", "UBnoSend", "UMnoSync"}},
+          e \in {x \in Elems : x.clone}, t \in {"Send", "Sync"} }
+  \cup { [kind |-> "auto", ty |-> ty, trait |-> t, ts |-> TsSeq(ts), backend |-> b.name, elem |-> e.name, dir |-> "only_if",
+        expect |-> IF t = "Send" THEN ViewMaySend("AnyVecMut", ts, b, e) ELSE ViewMaySync("AnyVecMut", ts, b, e)]
+        : ty \in TypedIters, ts \in TraitSets, b \in {x \in Backends : x.name \in {"Heap", "Stack", "UBnoSend", "UBnoSync", "UMnoSend", "UMnoSync"}},
           e \in {x \in Elems : x.clone}, t \in {"Send", "Sync"} }
   \cup { [kind |-> "ctor", ty |-> "new", trait |-> "", ts |-> TsSeq(ts), backend |-> b.name, elem |-> e.name, dir |-> "iff",
         expect |-> Admissible(ts, e)] : ts \in TraitSets, b \in {x \in Backends : x.name \in {"Heap", "Stack"}}, e \in Elems }
